@@ -261,6 +261,7 @@ func init() { streams["C02"] = runC02 }
 func runC02(r *Run) {
 	c02TypedValues(r)
 	c02PaddedValues(r)
+	c02StringerValues(r)
 	c02DirectiveValues(r)
 	r.Imports = []string{"Model.Tok"}
 	r.Rule("directive-free fragments and full documents generated from a grammar of parser-stable HTML (block, inline, void, list, explicit table, pre / textarea, script / style elements; attributes and text written with character references &amp; &lt; &gt; &quot; &#39; &#x3c; &nbsp; &copy;; doctype): " +
@@ -453,4 +454,63 @@ func c02RenderFile(src string) (string, error) {
 		err = vuego.NewFS(m).Load("page.vuego").Render(context.Background(), &buf)
 	}()
 	return buf.String(), err
+}
+
+// values of Go types that have a string form of their own (named string / int / struct types with a String method,
+// errors, pointers to them), as fields of a struct root, of a nested struct, of a struct held in a map, and directly in a
+// map: text, interpolated attribute and v-html all show fmt.Sprint of the value
+type c02Level string
+
+func (l c02Level) String() string { return "level<" + strings.ToUpper(string(l)) + ">" }
+
+type c02Code int
+
+func (c c02Code) String() string { return fmt.Sprintf("E%03d&", int(c)) }
+
+type c02Plain string
+type c02Err struct{ msg string }
+
+func (e c02Err) Error() string { return "err: " + e.msg }
+
+type c02Inner struct {
+	Level c02Level `json:"level"`
+	Code  c02Code  `json:"code"`
+}
+type c02Root struct {
+	Level c02Level `json:"level"`
+	Code  c02Code  `json:"code"`
+	Plain c02Plain `json:"plain"`
+	Err   error    `json:"err"`
+	Inner c02Inner `json:"inner"`
+	PtrIn *c02Inner
+	F32   float32 `json:"f32"`
+	U8    uint8   `json:"u8"`
+}
+
+func c02StringerValues(r *Run) {
+	in := c02Inner{Level: "note", Code: 7}
+	root := c02Root{Level: "warn", Code: 42, Plain: "pl ain", Err: c02Err{"x<y"}, Inner: in, PtrIn: &in, F32: 0.1, U8: 200}
+	paths := []struct {
+		path string
+		val  any
+	}{{"level", root.Level}, {"Level", root.Level}, {"code", root.Code}, {"plain", root.Plain}, {"err", root.Err}, {"inner.level", in.Level}, {"inner.code", in.Code},
+		{"PtrIn.level", in.Level}, {"f32", root.F32}, {"u8", root.U8}}
+	datas := map[string]any{"struct-root": root, "pointer-root": &root,
+		"map-of-values": map[string]any{"level": root.Level, "Level": root.Level, "code": root.Code, "plain": root.Plain, "err": root.Err, "inner": in, "PtrIn": &in, "f32": root.F32, "u8": root.U8}}
+	for dn, data := range datas {
+		for _, pv := range paths {
+			want := fmt.Sprint(pv.val)
+			tpl := `<p data-m="1" title="l-{{ ` + pv.path + ` }}-r">a {{ ` + pv.path + ` }} b</p><div data-m="2" v-html="` + pv.path + `"></div><i data-m="3" v-text="` + pv.path + `"></i>`
+			out, err := c03RenderAny(tpl, data)
+			_, title, _ := c01Parse(out, "1", "title")
+			_, text, _ := c01Parse(out, "1", "")
+			_, vtext, _ := c01Parse(out, "3", "")
+			r.Eval("stringer-value:"+dn+":"+pv.path, true, nil)
+			r.Count("stream:stringer-values(oracle only)")
+			if err != nil || title != "l-"+want+"-r" || text != "a "+want+" b" || vtext != want || !strings.Contains(out, `<div data-m="2">`+want+`</div>`) {
+				r.Fail("a value whose Go type has a string form of its own is not shown as fmt.Sprint shows it", map[string]string{"oracle": "stringer-values", "data": dn, "path": pv.path},
+					map[string]any{"template": tpl, "data": dn, "value_type": fmt.Sprintf("%T", pv.val), "expected": want, "title": title, "text": text, "v-text": vtext, "output": out, "err": fmt.Sprint(err)})
+			}
+		}
+	}
 }
